@@ -144,6 +144,7 @@ type E struct {
 	Lit    *Func    // funclit: the literal (lifted to a named function for the specification)
 	Want   int      // call: results requested by the context when that differs from the declaration (error cases)
 	Line   int
+	Break  bool   // binary expression: line break after the operator (goat rendering)
 	Raw    bool   // string literal printed as raw string
 	Spell  string // explicit source spelling of a literal (its meaning stays V / S)
 }
@@ -245,6 +246,10 @@ type printer struct {
 	prog   *Prog
 	tmp    int
 	hdr    int
+	// extra: line breaks inside the expression text built so far for the statement being printed (a
+	// broken binary expression, a raw string with a newline, a function literal); the text reaches w()
+	// only when the statement is complete
+	extra int
 }
 
 func (p *printer) nl() {
@@ -254,7 +259,13 @@ func (p *printer) nl() {
 
 func (p *printer) w(s string) {
 	p.b.WriteString(s)
-	p.line += strings.Count(s, "\n")
+	n := strings.Count(s, "\n")
+	p.line += n
+	if n >= p.extra {
+		p.extra = 0
+	} else {
+		p.extra -= n
+	}
 }
 
 func (p *printer) indent() { p.w(strings.Repeat("\t", p.ind)) }
@@ -333,7 +344,7 @@ func (p *printer) args(as []*E, spread bool) string {
 }
 
 func (p *printer) expr(e *E) string {
-	e.Line = p.line
+	e.Line = p.line + p.extra
 	switch e.K {
 	case "int":
 		if e.Spell != "" {
@@ -364,11 +375,18 @@ func (p *printer) expr(e *E) string {
 	case "bin":
 		pr := precOf[e.Op]
 		l := p.sub(e.L, pr, false)
+		sep := " "
+		if e.Break && !p.goMode {
+			// the operator ends the line: its line is where the left operand ends
+			e.Line = p.line + p.extra
+			p.extra++
+			sep = "\n" + strings.Repeat("\t", p.ind+2)
+		}
 		r := p.sub(e.R, pr, true)
 		if e.R.K == "int" && e.R.V < 0 && !p.goMode {
 			r = "(" + r + ")"
 		}
-		return l + " " + e.Op + " " + r
+		return l + " " + e.Op + sep + r
 	case "and":
 		return p.sub(e.L, 2, false) + " && " + p.sub(e.R, 2, true)
 	case "or":
@@ -755,7 +773,7 @@ func (p *printer) funcDecl(f *Func) {
 
 // funcLit prints a function literal inline (possibly spanning several lines)
 func (p *printer) funcLit(f *Func) string {
-	q := &printer{goMode: p.goMode, line: p.line, prog: p.prog, ind: p.ind}
+	q := &printer{goMode: p.goMode, line: p.line + p.extra, prog: p.prog, ind: p.ind}
 	var ps []string
 	for i, n := range f.Params {
 		ps = append(ps, n+" "+f.PTypes[i].Src(p.goMode))
@@ -774,6 +792,7 @@ func (p *printer) funcLit(f *Func) string {
 	q.block(f.Body)
 	out := q.b.String()
 	// the caller appends the text with w(), which advances its own line counter by the newlines in it
+	p.extra += strings.Count(out, "\n")
 	return out
 }
 
